@@ -38,6 +38,9 @@ func FromStream(stream *glyphdata.Stream) (*type1.Font, error) {
 	}
 
 	r, w := io.Pipe()
+	// Closing the read end releases the producer goroutine when type1.Read
+	// stops before the font data is drained (e.g. on a parse error).
+	defer r.Close()
 	var t1Font *type1.Font
 	var parseErr error
 
